@@ -418,6 +418,9 @@ class MarkdownNormalizer(Renderer):
         # Reset the skip flag since we're not rendering a blank line
         self._skip_next_blank_line = False
 
+        # Nothing precedes the first block inside the quote, so a list that opens it
+        # needs no separator line before its first item.
+        self._suppress_item_break = True
         with self.container("> ", "> "):
             result = self.render_children(element).rstrip("\n")
         self._prefix = self._second_prefix
